@@ -382,7 +382,9 @@ def run(chk: core.Check, replay=None) -> None:
         for clause in cls:
             own = scen.owner(clause)
             if own == "machinery":
-                raise core.MachineryError(f"monitor: {clause} in trace {tid}")
+                if all(scen.owner(c_) == "machinery" for _, c_ in fails):
+                    raise core.MachineryError(f"monitor: {clause} in trace {tid}")
+                continue        # the implementation leaves the protocol on a tree that violates properties: see loopsuite.validate
             if own == "C18":
                 chk.violation(clause, {"source": "real-shot"}, {"scenario": o.get("sc"), "summary": o.get("summ")})
             elif own == "C04" and (o.get("sc") or {}).get("cfg") and set((o["sc"]["cfg"])) & {"cMaximumDrop", "cMinimumVelocity", "cMinimumAltitude"}:
